@@ -231,6 +231,7 @@ contract(
     params={"self": Ref("C01_Compiler")},
     returns=Opt(Tuple(INT, INT)),
     globals={"getAttrWithFallback": Val.obj(FuncRef(None, "c01.getAttrWithFallback"))},
+    modifies=["C01_Compiler._defaultAndNominalWidths"],
     # a cached pair is one this method stored earlier (the only store besides __init__'s None: hook obligation C01.frame.*)
     requires=["self._defaultAndNominalWidths is None or (self._defaultAndNominalWidths[0] == otr(self._defaultAndNominalWidths[0]) and self._defaultAndNominalWidths[1] == otr(self._defaultAndNominalWidths[1]))"],
     # (the pair is typed Tuple(INT, INT): integrality is carried by the sort in the logic, and checked as a clause at run time)
@@ -307,6 +308,8 @@ contract(
         # what a CFF reader reconstructs (default when the operand is omitted, else nominal + operand) is otRound(glyph.width)
         "reader-width": "(private.defaultWidthX if result.pen.width is None else private.nominalWidthX + result.pen.width) == otr(glyph.width)",
     },
+    # the algebra of lemma C01.cff_width at the statement where it happens (integer nominal width): otRound(w - n) == otRound(w) - n
+    hints={"width = otRound(width)": ["width == otr(glyph.width) - private.nominalWidthX"]},
     canaries={"always-explicit": "result.pen.width is not None"},
 )
 
@@ -378,6 +381,111 @@ def _cs_call(fn, a):
 
 CLASSES["C01_CharString"].views["private"] = lambda o: o.private
 CONTRACTS["ufo2ft.outlineCompiler:OutlineOTFCompiler.getCharStringForGlyph"].runtime = Runtime(_cs_cases, _cs_build, call=_cs_call)
+
+# =====================================================================================================
+# OutlineOTFCompiler.compileGlyphs: EVERY glyph of the order gets the charstring of ITS OWN source glyph, all of them drawn against the one
+# (defaultWidthX, nominalWidthX) pair that getDefaultAndNominalWidths returns (and caches: setupTable_CFF writes the same pair into the
+# Private dict the charstrings are read back with) — so that what a reader reconstructs as the advance is otRound(source width) for
+# every glyph (reader-width of getCharStringForGlyph, through that contract).
+
+
+def _widths_call_glue(ex, st, self, args, kwargs, node):
+    """`self.getDefaultAndNominalWidths()` at a call site that UNPACKS the pair: the call goes through the method's contract (requires
+    proved, ensures assumed, field havocked), then the Optional result is unwrapped with the usual obligation `result is not None`
+    (provable from the postcondition `pair`).  Glue only — the engine cannot unpack an Optional tuple (notes/C01.requests.md item 10)."""
+    r = ex.call_contract(CONTRACTS["ufo2ft.outlineCompiler:OutlineOTFCompiler.getDefaultAndNominalWidths"], [self], {}, st, node)
+    return ex.deopt(r, st, node)
+
+
+_widths_call_glue.modifies = ["C01_Compiler._defaultAndNominalWidths"]
+CLASSES["C01_Compiler"].methods["getDefaultAndNominalWidths"] = _widths_call_glue
+
+
+@trusted("c01.namespace_private", "types.SimpleNamespace(defaultWidthX=d, nominalWidthX=n): a fresh object with exactly these two attributes")
+def _ns_private(ex, st, args, kwargs, node):
+    if args or set(kwargs) != {"defaultWidthX", "nominalWidthX"}:
+        raise Unsupported("SimpleNamespace(...) with other than defaultWidthX / nominalWidthX", node)
+    p = ex.new_object(st, "C01_Private")
+    ex.write_field(st, p, "defaultWidthX", kwargs["defaultWidthX"], node)
+    ex.write_field(st, p, "nominalWidthX", kwargs["nominalWidthX"], node)
+    return p
+
+
+CLASSES["C01_Compiler"].fields["glyphOrder"] = List(STR)
+_CG = "self.allGlyphs[self.glyphOrder[a]]"
+_CS = "{cs}[self.glyphOrder[a]]"
+_CS_FACTS = ("{cs}.pen.drawn == {g} and {cs}.pen.glyphSet == self.allGlyphs and {cs}.pen.roundTolerance == self.roundTolerance and {cs}.optimize == self.optimizeCFF"
+             " and {cs}.private.defaultWidthX == {d} and {cs}.private.nominalWidthX == {n}"
+             " and ({d} if {cs}.pen.width is None else {n} + {cs}.pen.width) == otr({g}.width)")
+
+contract(
+    "ufo2ft.outlineCompiler:OutlineOTFCompiler.compileGlyphs",
+    props=["C01"],
+    params={"self": Ref("C01_Compiler")},
+    returns=Dict(STR, Ref("C01_CharString")),
+    globals={"SimpleNamespace": Val.obj(FuncRef(None, "c01.namespace_private"))},
+    requires=[
+        "all(n in self.allGlyphs for n in self.glyphOrder)",  # the glyph order is made from allGlyphs (makeOfficialGlyphOrder, C03)
+        CONTRACTS["ufo2ft.outlineCompiler:OutlineOTFCompiler.getDefaultAndNominalWidths"].requires[0],
+    ],
+    modifies=["C01_Compiler._defaultAndNominalWidths", "T2CharStringPen.*", "C01_CharString.*", "C01_Private.*"],
+    ensures={
+        "every-glyph": "all(n in result for n in self.glyphOrder)",
+        "widths-cached": "self._defaultAndNominalWidths is not None",
+        # each charstring: its own source glyph, the compiler's glyph set / tolerance / optimize flag, the cached width pair, and the
+        # advance a reader reconstructs from (default, nominal, operand) is otRound(source width)
+        "own-glyph-and-width": "all(" + _CS_FACTS.format(cs=_CS.format(cs="result"), g=_CG, d="self._defaultAndNominalWidths[0]", n="self._defaultAndNominalWidths[1]")
+        + " for a in range(len(self.glyphOrder)))",
+    },
+    canaries={"same-glyph-for-all": "len(self.glyphOrder) > 1 and result[self.glyphOrder[0]].pen.drawn == result[self.glyphOrder[1]].pen.drawn and self.glyphOrder[0] != self.glyphOrder[1]"
+              " and self.allGlyphs[self.glyphOrder[0]] != self.allGlyphs[self.glyphOrder[1]]"},
+    locals={"compiledGlyphs": Dict(STR, Ref("C01_CharString"))},
+    loops={
+        "for glyphName in self.glyphOrder": Loop(
+            index="i",
+            invariants={
+                "done": "all(self.glyphOrder[a] in compiledGlyphs for a in range(i))",
+                "private": "private.defaultWidthX == defaultWidth and private.nominalWidthX == nominalWidth",
+                "facts": "all(" + _CS_FACTS.format(cs=_CS.format(cs="compiledGlyphs"), g=_CG, d="defaultWidth", n="nominalWidth") + " for a in range(i))",
+            },
+        )
+    },
+)
+
+def _cg_cases(rng, n):
+    out = []
+    for k in range(n):
+        g = rtlib.rand_glyphs(rng, n=rng.randint(1, 4))
+        for v in g.values():
+            v["width"] = rng.choice(_WIDTHS[:7] + [500, 400])
+        info = {}
+        if k % 3 == 1:
+            info = {"postscriptDefaultWidthX": rng.choice([500, 600.5, 0.5]), "postscriptNominalWidthX": rng.choice([400, 2.5, 300.5])}
+        out.append({"glyphs": g, "info": info, "rt": [None, 0, 0.25, 0.5][k % 4], "opt": bool((k // 4) % 2), "ufolib": ["ufoLib2", "defcon"][k % 2]})
+    return out
+
+
+def _cg_build(d):
+    from ufo2ft.outlineCompiler import OutlineOTFCompiler
+
+    f = rtlib.build_ufo(d, d["ufolib"])
+    comp = OutlineOTFCompiler(f, roundTolerance=d["rt"], optimizeCFF=d["opt"])
+    comp.allGlyphs = {n: _DrawRec(g) for n, g in comp.allGlyphs.items()}
+    return {"self": comp}
+
+
+def _cg_call(fn, a):
+    import ufo2ft.outlineCompiler as oc
+
+    real = oc.T2CharStringPen
+    oc.T2CharStringPen = _RecPenFactory.make()
+    try:
+        return fn(a["self"])
+    finally:
+        oc.T2CharStringPen = real
+
+
+CONTRACTS["ufo2ft.outlineCompiler:OutlineOTFCompiler.compileGlyphs"].runtime = Runtime(_cg_cases, _cg_build, call=_cg_call)
 
 # =====================================================================================================
 # util.decomposeCompositeGlyph: every component drawn once, in order, through ONE decomposing pen built
@@ -751,3 +859,106 @@ for _e in (False, True):
     for _r in (False, True):
         for _b in ((False, True) if _r else (False,)):
             _otf_variant(_e, _r, _b)
+
+# =====================================================================================================
+# BasePreProcessor.process: the filters run exactly once each, in the order  pre-filters, DEFAULT filters, post-filters,
+# every one on (self.ufo, self.glyphSet); the processed glyph set is returned.  (Together with the decision tables above: the full
+# decomposition is applied after the user's pre-filters and before the user's post-filters, on the glyph set the compiler will draw.)
+# A filter is an opaque callable here: calling it appends (filter, font) to a log kept on the glyph set it was called on (ghost).
+
+cls("C01_PUfo", notes="the source font handed to the filters (opaque)")
+
+
+def _anyfilter_call(ex, st, self, args, kwargs, node):
+    if len(args) != 2 or kwargs:
+        raise Unsupported("filter called with other than (font, glyphSet)", node)
+    font, gs = args
+    a, f = ex.read_field(st, gs, "applied"), ex.read_field(st, gs, "applied_font")
+    ex.write_field(st, gs, "applied", Val(a.ty, _snoc_if(st, a, lift(self), z3.BoolVal(True))), node)
+    ex.write_field(st, gs, "applied_font", Val(f.ty, _snoc_if(st, f, lift(font), z3.BoolVal(True))), node)
+    return Val(BOOL, fresh(BOOL, "filter_result"))
+
+
+_anyfilter_call.modifies = ["C01_PGlyphSet.applied", "C01_PGlyphSet.applied_font"]
+cls("C01_AnyFilter", methods={"__call__": _anyfilter_call}, notes="a filter object: only `filter(font, glyphSet)` is used; what it does to the glyphs is its own contract (C14/C15)")
+cls("C01_PGlyphSet", fields={"applied": List(Ref("C01_AnyFilter")), "applied_font": List(Ref("C01_PUfo"))},
+    notes="glyph set being pre-processed; applied / applied_font = log of the filter calls made on it (ghost)")
+cls("C01_PP", fields={"ufo": Ref("C01_PUfo"), "glyphSet": Ref("C01_PGlyphSet"), "preFilters": List(Ref("C01_AnyFilter")), "defaultFilters": List(Ref("C01_AnyFilter")),
+                      "postFilters": List(Ref("C01_AnyFilter"))}, repo="ufo2ft.preProcessor:BasePreProcessor", notes="pre-processor instance")
+
+_AP = "self.glyphSet.applied"
+_A0 = f"len(old({_AP}))"
+_NPRE, _NDEF, _NPOST = "len(self.preFilters)", "len(self.defaultFilters)", "len(self.postFilters)"
+_CAT = "(self.preFilters + self.defaultFilters + self.postFilters)"
+contract(
+    "ufo2ft.preProcessor:BasePreProcessor.process",
+    props=["C01", "C02"],
+    params={"self": Ref("C01_PP")},
+    returns=Ref("C01_PGlyphSet"),
+    modifies=["C01_PGlyphSet.applied", "C01_PGlyphSet.applied_font"],
+    ensures={
+        "returns-the-glyph-set": "result == self.glyphSet",
+        "each-once": f"len({_AP}) == {_A0} + {_NPRE} + {_NDEF} + {_NPOST} and len(self.glyphSet.applied_font) == len({_AP})",
+        "earlier-calls-kept": f"all({_AP}[k] == old({_AP})[k] for k in range({_A0}))",
+        "pre-filters-first": f"all({_AP}[{_A0} + k] == self.preFilters[k] for k in range({_NPRE}))",
+        "then-default-filters": f"all({_AP}[{_A0} + {_NPRE} + k] == self.defaultFilters[k] for k in range({_NDEF}))",
+        "then-post-filters": f"all({_AP}[{_A0} + {_NPRE} + {_NDEF} + k] == self.postFilters[k] for k in range({_NPOST}))",
+        "on-the-source-font": f"all(self.glyphSet.applied_font[k] == self.ufo for k in range({_A0}, len({_AP})))",
+    },
+    canaries={"defaults-first": f"{_NPRE} > 0 and {_NDEF} > 0 and {_AP}[{_A0}] == self.defaultFilters[0] and self.preFilters[0] != self.defaultFilters[0]"},
+    ghost_vars={"AP0": (List(Ref("C01_AnyFilter")), "self.glyphSet.applied"), "AF0": (List(Ref("C01_PUfo")), "self.glyphSet.applied_font")},
+    loops={
+        "for func in self.preFilters + self.defaultFilters + self.postFilters": Loop(
+            index="i", seq="ALL",
+            invariants={
+                "len": "len(glyphSet.applied) == len(AP0) + i and len(glyphSet.applied_font) == len(AP0) + i",
+                "kept": "all(glyphSet.applied[k] == AP0[k] for k in range(len(AP0)))",
+                "in-order": "all(glyphSet.applied[len(AP0) + k] == ALL[k] for k in range(i))",
+                "font": "all(glyphSet.applied_font[k] == ufo for k in range(len(AP0), len(AP0) + i))",
+            },
+        )
+    },
+    requires=["len(self.glyphSet.applied) == len(self.glyphSet.applied_font)"],
+    # list concatenation, position by position (pure sequence facts, each proved on its own; the loop iterates exactly this term)
+    hints={"glyphSet = self.glyphSet": [
+        f"len({_CAT}) == {_NPRE} + {_NDEF} + {_NPOST}",
+        f"all({_CAT}[k] == self.preFilters[k] for k in range({_NPRE}))",
+        f"all({_CAT}[{_NPRE} + k] == self.defaultFilters[k] for k in range({_NDEF}))",
+        f"all({_CAT}[{_NPRE} + {_NDEF} + k] == self.postFilters[k] for k in range({_NPOST}))",
+    ]},
+)
+
+
+class _LogFilter:
+    """run-time stand-in for a filter: logs the call on the glyph set it is called on (the ghost log of the contract, made real)"""
+
+    def __init__(self, tag):
+        self.tag = tag
+
+    def __call__(self, font, glyphSet):
+        glyphSet.applied.append(self)
+        glyphSet.applied_font.append(font)
+        return set()
+
+
+def _pp_cases(rng, n):
+    return [{"glyphs": rtlib.rand_glyphs(rng, n=2), "npre": rng.randint(0, 3), "ndef": rng.randint(0, 3), "npost": rng.randint(0, 3), "before": rng.randint(0, 2),
+             "shared": rng.random() < 0.3, "ufolib": ["ufoLib2", "defcon"][k % 2]} for k in range(n)]
+
+
+def _pp_build(d):
+    from ufo2ft.preProcessor import OTFPreProcessor
+
+    f = rtlib.build_ufo(d, d["ufolib"])
+    pp = OTFPreProcessor(f, filters=[])
+    pp.preFilters = [_LogFilter(f"pre{i}") for i in range(d["npre"])]
+    pp.defaultFilters = [_LogFilter(f"def{i}") for i in range(d["ndef"])]
+    pp.postFilters = [_LogFilter(f"post{i}") for i in range(d["npost"])]
+    if d["shared"] and pp.preFilters and pp.postFilters:
+        pp.postFilters[-1] = pp.preFilters[0]  # the same filter object in two lists: still called once per occurrence
+    pp.glyphSet.applied = [_LogFilter(f"old{i}") for i in range(d["before"])]
+    pp.glyphSet.applied_font = [f] * d["before"]
+    return {"self": pp}
+
+
+CONTRACTS["ufo2ft.preProcessor:BasePreProcessor.process"].runtime = Runtime(_pp_cases, _pp_build, call=lambda fn, a: fn(a["self"]))
